@@ -39,4 +39,6 @@ run C31 && mut C31 protocol/chainlib/common.go '		if currentEarliest > 0 && pars
 			return parsedBlock'
 run C32 && mut C32 protocol/chainlib/extensionslib/archive_parser_rule.go 'if latestBlock <= apr.extension.Rule.Block {' 'if false {'
 run C34 && mut C34 protocol/relaypolicy/policy.go 'input.AttemptNumber >= p.config.MaxRetries' 'input.AttemptNumber > p.config.MaxRetries'
+run C36 && mut C36 protocol/chainlib/chain_fetcher.go '	relayData.SeenBlock = 0                         // remove seen block
+' ''
 exit 0
